@@ -32,7 +32,14 @@ impl Scheduler {
 
     /// Next connection which is ready to make progress
     pub fn poll(&mut self) -> Option<(ConnectionId, VecDeque<DataRequest>)> {
-        let id = self.readyqueue.pop_front()?;
+        // A connection that is gone by now can still be in the ready queue: skip it,
+        // `None` means that nothing at all is ready
+        let id = loop {
+            let id = self.readyqueue.pop_front()?;
+            if self.trackers.contains(id) {
+                break id;
+            }
+        };
         let tracker = self.trackers.get_mut(id)?;
 
         // drain will clear all DataRequest but will keep the allocated memory of our VecDeque.
